@@ -61,6 +61,7 @@ def rules(ctx, F):
                    sample={"function": fn.name, "loop_head": fn.loc(head[0]), "movers": len(move)})
         else:
             ctx.bad("R3", "ts_parser__reuse_node:walk-keeps-pace", "ts_parser__reuse_node: %s" % (v.msg if v else "loop head not found"), {"path": s.render_path(v.path) if v else []})
+        rule_skip(ctx, F, fn)
     fn = ctx.need_fn(F, "ts_parser__get_cached_token", "R1")
     if fn:
         feasible(ctx, "R1", fn, [pt for pt, n in find(fn, "ts_subtree_retain(_)")], "the retain-and-return of the cached token")
@@ -115,6 +116,33 @@ def rules(ctx, F):
             ctx.ok("R4", "ts_subtree_edit:stops-after-the-edit", "the child loop has a reachable early exit for children starting after the edit")
         else:
             ctx.bad("R4", "ts_subtree_edit:stops-after-the-edit", "the child loop of ts_subtree_edit no longer stops at children that start after the edit (whole tree would be marked)")
+
+
+def rule_skip(ctx, F, fn):
+    """R6: the old-tree walk steps over a whole node (reusable_node_advance) only when nothing inside
+    it can still be reused: the node ends at or before the parse position, it has no children to
+    descend into, or the scanner state in front of it differs.  A rejection for any other reason must
+    descend (or step past the first leaf only), otherwise the rest of the node is re-lexed."""
+    ADV = "reusable_node_advance"
+    direct = [pt for pt, c in fn.calls() if c.get("fn") == ADV]
+    helpers = {}
+    for pt, c in fn.calls():
+        h = F.fns.get(c.get("fn") or "")
+        if h is None or h.name in (ADV, "reusable_node_descend") or not h.file.endswith("reusable_node.h"):
+            continue
+        inner = [p for p, cc in h.calls() if cc.get("fn") == ADV]
+        if inner:
+            helpers.setdefault(h.name, (h, inner, []))[2].append(pt)
+    ctx.floor("whole-node steps of the old-tree walk in ts_parser__reuse_node", len(direct) + sum(len(v[2]) for v in helpers.values()), 4)
+    self_arg = fn.cur("self")
+    ctx.gate("R6", fn, direct, [("a whole old node is stepped over only when it ends before the parse position, has no children, or sits behind a different scanner state",
+                                 [("end_byte_offset <= position", True), ("reusable_node_descend(&%s->reusable_node)" % self_arg, False),
+                                  ("ts_subtree_external_scanner_state_eq(%s->reusable_node.last_external_token, last_external_token)" % self_arg, False)])],
+             accept_desc="stepping over a whole old node")
+    for name, (h, inner, sites) in sorted(helpers.items()):
+        hs = h.params[0]["name"] if h.params else "self"
+        ctx.gate("R6", h, inner, [("the helper steps over a node only after descending as far as possible (a leaf)", [("reusable_node_descend(%s)" % hs, False)])],
+                 accept_desc="stepping over a node")
 
 
 def rule_eq(ctx, F):
